@@ -590,7 +590,7 @@ THEOREMS = THEOREMS + ["OdxVerif.Codec." + t for t in [
     "dopP2I_linear_num", "dopI2P_linear_flt", "LinFLeaf.convOk", "LinFLeaf.comp_ok", "LinFLeaf.constComp_ok", "LinFLeaf.defaultComp_ok",
     "LinFLeaf.described", "LinFLeaf.constDescribed", "LinFLeaf.defaultDescribed",
     "DtcLinLeaf.convOk", "DtcLinLeaf.comp_ok", "DtcLinLeaf.constComp_ok", "DtcLinLeaf.described", "DtcLinLeaf.constDescribed",
-    "DtcLinLeaf.encode_unknown_internal", "dtcP2I_linear_int", "dtcI2P_linear_int",
+    "DtcLinLeaf.known", "DtcLinLeaf.encode_described", "DtcLinLeaf.encode_unknown", "dtcP2I_linear_int", "dtcI2P_linear_int",
     "decodeDct_obj_exact", "encodeDop_conv", "decodeDop_conv", "encodeParam_conv", "decodeParam_conv",
     "DComp.muxConv_okM", "DComp.muxConv_ok", "DComp.muxConv_endOk", "DComp.mux_ok_lin",
     "DComp.dynLenFieldConv_okM", "DComp.dynLenFieldConv_endOk", "DComp.dynLenField_ok_lin",
